@@ -34,6 +34,14 @@ fn heavy_filters(rng: &mut crate::rng::Rng, spec: &core::SchemeSpec, n: usize) -
         "y in {\"abc\" \"ab\"}".into(),
         "lower(y) == \"abc\" and len(http.host) == 3".into(),
         "lower(http.host) contains \"bc\"".into(),
+        // chains of >= 3 operands that DIFFERENT contexts satisfy through DIFFERENT operands
+        // (anything adaptive inside a compiled chain — operand reordering, a remembered
+        // "hot" operand — is steered in opposite directions by concurrent executions)
+        "y == \"zzz\" or y == \"abc\" or y == \"xyz\" or http.host == \"q\"".into(),
+        "i == 123456 or http.host == \"xyz\" or y == \"abc\" or b".into(),
+        "y != \"abc\" and http.host != \"zzz\" and y != \"q\" and len(y) == 3".into(),
+        "y == \"abc\" xor http.host == \"xyz\" xor y == \"q\"".into(),
+        "(y == \"q\" or y == \"xyz\" or y == \"abc\") and (http.host == \"q\" or http.host == \"abc\" or http.host == \"xyz\")".into(),
     ];
     // large literal sets (anything built lazily from them takes long enough to be raced)
     let mut big_bytes = String::from("y in {");
@@ -222,7 +230,7 @@ pub fn run(cfg: Cfg, out: &mut Out) {
         // is only ever exposed by this kind of overlap.
         let mut hot: Vec<usize> = (0..texts.len()).filter(|&fi| base[fi].iter().any(|a| *a != base[fi][0])).collect();
         // the fixed operator filters first, then generated ones
-        hot.truncate(if cfg.quick() { 14 } else { 40 });
+        hot.truncate(if cfg.quick() { 28 } else { 60 });
         let t = 16usize;
         let iters = if cfg.quick() { 20_000usize } else { 120_000 };
         for fi in hot {
